@@ -7,8 +7,8 @@ post-processing and the real surface.py functions map every vertex to
 spacing and origin shift compose to the identity), reverse the winding exactly for 'descent',
 and the sampling box contains every atom +- (vdW + 3.8).
 Layer 3: the user-level wrappers and the colour mapping return instead of raising.
-Layer 2 (topology of the Lewiner kernel) is decided in c06_kernel when the translated kernel
-reproduces the compiled one."""
+Layer 2 (topology of the Lewiner kernel itself) is not encoded: the kernel enters as the stub's
+contract, exercised concretely against the compiled module; closedness is not a solver verdict."""
 import itertools
 import time
 
